@@ -17,6 +17,18 @@ A case is built from a generated module A (the C07 generator):
             ORACLE: resolve error FailedToResolveReference(name) (stage 2, kind 1); never a model.
   wrongkind an INTEGER range or SIZE use site refers to a BOOLEAN / string / octet-string value (local or imported).
             ORACLE: resolve error (stage 2); never a model.
+  clash     one identifier bound in two namespaces that a DEFAULT / a constraint could mean: an item of an ENUMERATED type
+            (local or imported) and a value assignment of the same name (local before / after the use, imported over one
+            or two hops).  enum_wins: components `lvl Level-E DEFAULT item`; the *literal variant* has no value of that
+            name at all (the assignment and its imports carry another name of the same length) and must resolve
+            identically: the item of the component's ENUMERATED wins (X.680: the identifier of an EnumeratedValue).
+            value_wins: `n INTEGER (0..100) DEFAULT name`, `SIZE(name)`, `(0..name)`, and a component of ANOTHER
+            ENUMERATED type that has no such item; the literal variant renames the ITEM instead: the value reference
+            is meant in both.  ORACLE: both variants resolve, to the same dump up to that one renamed identifier.
+            named_number / ref_chain: `nn INTEGER { name(5) } DEFAULT name`, `x Chain-M1 DEFAULT item` with Chain-M1 ::= Level-E:
+            the identifier of the component's own type should win exactly as in enum_wins; the crate resolves to the
+            value with the same-named assignment and rejects the module set without it (known classes
+            name_clash_named_number_ignored, name_clash_reference_chain_not_followed; any other difference is unknown).
   negsize   a SIZE use site refers to a negative INTEGER value; the literal variant writes the negative number.
             ORACLE: as subst (the literal variant is an error, so the referencing one has to be one as well;
             before repair fb434d2 of /repo the value was cast with `as usize` and wrapped).
@@ -219,6 +231,135 @@ def build_case(rng, A, kind):
     return C07.case_line(3312, meta, i_ref)
 
 
+def rename_len_preserving(nm):
+    return ("z" if nm[0] != "z" else "y") + nm[1:]
+
+
+def build_clash(rng, A):
+    """-> case line or None (see the module docstring, kind `clash`)"""
+    A = copy.deepcopy(A)
+    A["empty_imports"] = False
+    family = rng.choice(["enum_wins", "enum_wins", "enum_wins", "enum_wins", "value_wins", "value_wins", "named_number", "ref_chain"])
+    enum_place = rng.choice(["local", "local", "imported"]) if family != "named_number" else "none"
+    val_place = rng.choice(["local", "local", "local", "sibling", "sibling_oid", "two_hop"])
+    eitems = [[x, None] for x in rng.sample(C07.ITEM_NAMES + ["medium"], rng.randint(2, 5))]
+    if rng.random() < 0.3:
+        for i, it in enumerate(eitems):
+            it[1] = 3 * i + 1
+    eext = rng.choice([None, None, len(eitems)])
+    ename, uname, oname = "Level-E", "Clash-Use", "Other-E"
+    nm = rng.choice(eitems)[0]
+    n2 = rename_len_preserving(nm)
+    taken = {it[1] for it in A["items"]}
+    if {nm, n2, ename, uname, oname, "Chain-M1", "Chain-M2"} & taken:
+        return None
+    if any(l[0] == "id" and l[1] in (nm, n2) for l, _ in C07.all_literals(A)):
+        return None
+    v = rng.randint(0, 100)
+    val = ["val", nm, ["INTEGER", [], None], ["int", v]]
+    edef = ["type", ename, rng.choice([None, None, [2, 3]]), ["ENUM", eitems, eext]]
+    # the uses
+    if family == "enum_wins":
+        comps = [["lvl", rng.choice([None, [2, 0]]), ["REF", ename, None], ["DEFAULT", ["id", nm]]]]
+        if rng.random() < 0.4:
+            comps.append(["lvl2", [2, 1], ["REF", ename, None], ["DEFAULT", ["id", nm]]])
+        if rng.random() < 0.5:
+            comps.insert(rng.randint(0, len(comps)), ["flag", None, ["BOOLEAN"], rng.choice([None, "OPTIONAL"])])
+    elif family == "named_number":
+        # known deviation F12-4: the named number of the component's own type should win (X.680)
+        named = [[nm, 5]] + [[x, 300 + i] for i, x in enumerate(C07.ITEM_NAMES[:rng.randint(0, 2)]) if x not in (nm, n2)]
+        rng.shuffle(named)
+        comps = [["nn", rng.choice([None, [2, 0]]), ["INTEGER", named, rng.choice([None, [0, 1000, False]])], ["DEFAULT", ["id", nm]]]]
+        v = 16
+        val = ["val", nm, ["INTEGER", [], None], ["int", v]]
+    elif family == "ref_chain":
+        # known deviation F12-5: the item of the ENUMERATED reached through type references should win
+        last = ename
+        for h in range(rng.choice([1, 1, 2])):
+            A["items"].insert(rng.randint(0, len(A["items"])), ["type", "Chain-M%d" % (h + 1), rng.choice([None, None, [2, 7]]), ["REF", last, None]])
+            last = "Chain-M%d" % (h + 1)
+        comps = [["x", rng.choice([None, [2, 0]]), ["REF", last, None], ["DEFAULT", ["id", nm]]]]
+    else:
+        pool = [["n", None, ["INTEGER", [], [0, 100, False]], ["DEFAULT", ["id", nm]]],
+                ["o", None, ["OCTET", {"k": "fix", "n": ["ref", nm], "ext": False, "paren": True}], None],
+                ["i", None, ["INTEGER", [], [0, ["ref", nm], False]], None],
+                ["lv2", None, ["REF", oname, None], ["DEFAULT", ["id", nm]]],
+                ["so", None, ["SEQOF", ["BOOLEAN"], {"k": "range", "lo": 0, "hi": ["ref", nm], "ext": False, "paren": True}], None]]
+        comps = rng.sample(pool, rng.randint(1, len(pool)))
+        if any(c[0] == "lv2" for c in comps):
+            other = [[x, None] for x in C07.ITEM_NAMES if x not in (nm, n2)][:rng.randint(1, 3)]
+            A["items"].insert(rng.randint(0, len(A["items"])), ["type", oname, None, ["ENUM", other, None]])
+    use = ["type", uname, None, [rng.choice(["SEQUENCE", "SET"]), comps, None]]
+    A["items"].insert(rng.randint(0, len(A["items"])), use)
+    mods = [A]
+    if enum_place == "none":
+        pass
+    elif enum_place == "local":
+        A["items"].insert(rng.randint(0, len(A["items"])), edef)
+    else:
+        eoid = rng.choice([None, [["both", "iso", 1], ["num", 4], ["num", 44]]])
+        mods.append({"name": "Enum-Lib", "oid": eoid, "tagdefault": None, "imports": [], "empty_imports": False,
+                     "items": [edef, ["type", "Shared-E", None, ["NULL"]]]})
+        A["imports"] = A["imports"] + [[[ename], "Enum-Lib", copy.deepcopy(eoid) if rng.random() < 0.5 else None]]
+    if val_place == "local":
+        A["items"].insert(rng.randint(0, len(A["items"])), val)          # before or after the use
+    else:
+        void = [["both", "iso", 1], ["num", 5], ["num", 55]] if val_place == "sibling_oid" else None
+        lib = {"name": "Vals-Lib", "oid": void, "tagdefault": None, "imports": [], "empty_imports": False,
+               "items": [val, ["type", "Shared-V", None, ["BOOLEAN"]]]}
+        imp = [[nm], "Vals-Lib", copy.deepcopy(void)]
+        if val_place == "two_hop":
+            mods.append({"name": "Middle-Defs", "oid": None, "tagdefault": None, "imports": [imp], "empty_imports": False,
+                         "items": [["type", "Relay", None, ["BOOLEAN"]]]})
+            imp = [[nm], "Middle-Defs", None]
+        if rng.random() < 0.5:
+            A["imports"] = [imp] + A["imports"]
+        else:
+            A["imports"] = A["imports"] + [imp]
+        mods.append(lib)
+    # the literal variant: the same module set with ONE identifier renamed (same length): the value in enum_wins
+    # (so that no value of that name exists), the item in value_wins (so that no item of that name exists)
+    lit = copy.deepcopy(mods)
+    for m in lit:
+        if family != "value_wins":
+            for it in m["items"]:
+                if it[0] == "val" and it[1] == nm:
+                    it[1] = n2
+            for im in m["imports"]:
+                im[0] = [n2 if w == nm else w for w in im[0]]
+        else:
+            for it in m["items"]:
+                if it[0] == "type" and it[1] == ename:
+                    for e in it[3][1]:
+                        if e[0] == nm:
+                            e[0] = n2
+    order = list(range(len(mods)))
+    rng.shuffle(order)
+    mods = [mods[i] for i in order]
+    lit = [lit[i] for i in order]
+    seed = rng.randrange(1 << 30)
+    t_ref, i_ref = render_set(mods, seed)
+    t_lit, i_lit = render_set(lit, seed)
+    meta = {"kind": "clash", "family": family, "enum_place": enum_place, "place": val_place, "n1": nm, "n2": n2,
+            "dangling": None, "infos": [], "bad": None, "order": order, "texts": t_ref, "lit_texts": t_lit}
+    return C07.case_line(3314, meta, [len(i_ref)] + i_ref + i_lit)
+
+
+def subst_ints(a, old, new):
+    """replace every occurrence of the int sequence `old` in `a` by `new`"""
+    out = []
+    i = 0
+    n = len(old)
+    while i < len(a):
+        if a[i:i + n] == old:
+            out += new
+            i += n
+        else:
+            out.append(a[i])
+            i += 1
+    return out
+
+
 class C12(Spec):
     prop = "C12"
     coq_targets = ["Props/C12.vo"]
@@ -234,7 +375,8 @@ class C12(Spec):
                 "C12_non_integer_is_error_type", "C12_non_integer_is_error_module", "C12_non_integer_is_error_all",
                 "C12_order_irrelevant_module", "C12_order_irrelevant_all", "C12_order_irrelevant_all_error",
                 "C12_subst_nonvacuous", "C12_error_nonvacuous", "C12_order_nonvacuous",
-                "C12_refuted_load_order_matters_with_duplicate_module_names"]
+                "C12_refuted_load_order_matters_with_duplicate_module_names",
+                "C12_enum_default_precedence", "C12_enum_default_other_item_is_value", "C12_non_reference_default_is_value", "C12_enum_default_precedence_nonvacuous"]
     MODEL_OPS = {3302, 3304, 3312, 3314}
     builds = [("default", "dev"), ("default", "release")]
     level_text = ('A hand-written Gallina model of ResolveScope / MultiModuleResolver (local first, then the first import listing '
@@ -251,7 +393,9 @@ class C12(Spec):
             "numbers incl. SIZE(0..MAX), DEFAULT literals of kind integer/boolean/string/hstring/bstring); subsets of size 1, 2, 3, "
             "half, all; placement local / sibling with OID (import by OID+name, by name only, by OID only under another name) / "
             "sibling without OID / two hops through a middle module that only re-imports the names; optional decoy module with the same names; all load orders by shuffling; dangling (4 kinds), "
-            "wrong-kind (boolean, string, octet string) and negative-SIZE references. non-trivial = the referencing variant "
+            "wrong-kind (boolean, string, octet string) and negative-SIZE references; name clashes between an ENUMERATED item and a value "
+            "assignment (enum local / imported; value local before / after the use, one hop, one hop by OID, two hops; DEFAULT of the "
+            "enumerated component vs INTEGER DEFAULT / SIZE / range bound / component of another ENUMERATED). non-trivial = the referencing variant "
             "resolved to a model (subst) or was rejected (others); distinct = distinct case line")
     assumptions_text = ["the integer dump of Model<Asn<Resolved>> in harness/a1h/src/parse.rs"]
     xcheck_n = 30
@@ -281,9 +425,11 @@ class C12(Spec):
             tries += 1
             g = C07.Gen(rng, special=0.0, max_depth=rng.choice([1, 2, 3, 4]))
             A = g.module()
+            if any(c in (C07.Q_NAMED_DEFAULT, C07.Q_CHAIN_DEFAULT) for c, _, _ in C07.rejection_triggers(A)):
+                continue        # the base module does not resolve (known classes of C07); the two families are generated by build_clash
             k = rng.random()
-            kind = "subst" if k < 0.7 else "dangling" if k < 0.85 else "wrongkind" if k < 0.95 else "negsize"
-            c = build_case(rng, A, kind)
+            kind = "subst" if k < 0.6 else "clash" if k < 0.73 else "dangling" if k < 0.86 else "wrongkind" if k < 0.95 else "negsize"
+            c = build_clash(rng, A) if kind == "clash" else build_case(rng, A, kind)
             if c is not None:
                 if '"import_cycle"' in bytes(int(x) for x in c.split()[2:2 + int(c.split()[1])]).decode():
                     cycles += 1
@@ -330,6 +476,37 @@ class C12(Spec):
         lit_show = " || ".join(meta["lit_texts"])
         if a_ref[:1] == [2] or a_lit[:1] == [2]:
             return [("resolver_panic", "panic (%s / %s) on: %s" % (a_ref[:3], a_lit[:3], show))]
+        if kind == "clash":
+            if a_ref[:1] != [0] and a_lit[:1] != [0]:
+                return None             # neither variant resolves (something else in the surrounding module): nothing to compare
+            lit_show = " || ".join(meta["lit_texts"])
+            what = ("the item of the component's ENUMERATED is meant by DEFAULT %s" % meta["n1"]) if meta["family"] == "enum_wins" \
+                else ("the value reference %s is meant (INTEGER component / SIZE / range / component of an ENUMERATED without that item)" % meta["n1"])
+            known = {"named_number": ("name_clash_named_number_ignored",
+                                      "DEFAULT %s on an INTEGER component with the named number %s: the named number should be meant with or "
+                                      "without a value assignment of that name (X.680); the crate looks the identifier up as a value reference "
+                                      "only: the module set resolves (to the value's literal) with the same-named value assignment and is rejected "
+                                      "with FailedToResolveReference without it" % (meta["n1"], meta["n1"])),
+                     "ref_chain": ("name_clash_reference_chain_not_followed",
+                                   "DEFAULT %s on a component whose type reaches the ENUMERATED through type references: the item should be meant "
+                                   "with or without a value assignment of that name (X.680); the crate inspects only a definition that is itself "
+                                   "an ENUMERATED: the module set resolves (to the value's literal) with the same-named value assignment and is "
+                                   "rejected with FailedToResolveReference without it" % meta["n1"])}.get(meta["family"])
+            if known is not None and a_ref[:1] == [0] and a_lit == [1, 2, 1] + C07.c_str(meta["n1"]):
+                return [(known[0], "%s (value %s, enum %s): %s || without the value: %s" % (known[1], meta["place"], meta["enum_place"], show, lit_show))]
+            if known is not None:
+                what = "the identifier of the component's own type is meant by DEFAULT %s" % meta["n1"]
+            if a_ref[:1] != [0] or a_lit[:1] != [0]:
+                return [("name_clash_changes_resolvability",
+                         "%s; with the clashing %s present the module set %s, without it it %s (value %s, enum %s): %s || without the clash: %s" %
+                         (what, "value assignment" if meta["family"] == "enum_wins" else "ENUMERATED item",
+                          "resolves" if a_ref[:1] == [0] else "fails %s" % a_ref[:8], "resolves" if a_lit[:1] == [0] else "fails %s" % a_lit[:8],
+                          meta["place"], meta["enum_place"], show, lit_show))]
+            if subst_ints(a_lit, C07.c_str(meta["n2"]), C07.c_str(meta["n1"])) == a_ref:
+                return None
+            return [("name_clash_resolved_in_wrong_namespace",
+                     "%s; the model resolved with the clash differs from the one without (value %s, enum %s): %s || without the clash: %s" %
+                     (what, meta["place"], meta["enum_place"], show, lit_show))]
         if kind == "negsize":
             if a_ref[:1] == [0]:
                 return [("negative_value_reference_as_size_wraps",
